@@ -132,3 +132,35 @@ prop("C04",
                   "dtype (induction hypothesis)"],
      unverified_surroundings=["CPython pickle", "pymbolic expression "
                               "equality (expr field)"])
+
+prop("C13",
+     level="proof",
+     level_text=(
+         "Deductive proof per (mapper class, node kind): the real map_* "
+         "source, interpreted on a node whose children are opaque arrays, "
+         "invokes the recursion on every declared array child (data model by "
+         "reflection) and, for transformations, returns its argument itself "
+         "when nothing changed; every rec/cache implementation satisfies its "
+         "memoisation contract for arbitrary (symbolically equal or unequal) "
+         "keys, including reporting key collisions."),
+     level_note=(
+         "The whole-graph statements (once per node, one result per shared "
+         "node, no more distinct results than inputs) follow from these "
+         "per-function contracts by the DAG inductions of DESIGN Appendix "
+         "A.1/A.2, argued on paper. Collections are enumerated with 0..3 "
+         "entries. Mapper constructors and pymbolic's optimize_mapper output "
+         "run as they are (the generated source is what is interpreted)."),
+     technique="contract-based deductive verification: symbolic execution of "
+               "the real mapper methods over a reflective data model with "
+               "recursion replaced by its contract",
+     design_ref="DESIGN.md §6 C13",
+     explanation="see contracts/c13_mappers.py and contracts/c13_caches.py",
+     structural_bound="every structural mapper class x every node kind; "
+                      "tuple/mapping fields with 2-3 entries incl. mixed "
+                      "int/array shape and index entries",
+     trusted_base=["dataclasses.fields reflects the data model",
+                   "dict/set semantics of CPython for hash-0 keys"],
+     assumptions=["composition lemmas A.1/A.2 (paper)"],
+     unverified_surroundings=["mappers with bespoke state not in the "
+                              "structural list (code generation mappers, "
+                              "visualization)"])
